@@ -65,16 +65,20 @@ Definition tmap (w : world) (o : op) : option (nat * (vec -> vec)) :=
 Definition target (o : op) : option nat :=
   match o with
   | OTranslate i _ | ORotate i _ _ | OScale i _ _ | OScaleXYZ i _ _ _ _ | ONormalize i _ | OFit i | OToOrigin i
-  | OFlatten i _ | OSet i _ _ | OEdit i _ _ _ => Some i
+  | OFlatten i _ | OSet i _ _ | OEdit i _ _ _ | OAttrSet i _ _ _ | OAttrEdit i _ _ _ _ | OElemEdit i _ _ _ => Some i
   | _ => None
   end.
 
-(* producers outside the anchors that do NOT build their result through prepare() (caller arrays, PointCloud.append,
-   extract_boundary_of_surface): the stated hypothesis is that they store no vector under two vertex ids.
-   Results built through prepare() need no hypothesis: prepare() gives every vertex a buffer of its own. *)
+(* results that take vectors over AS THEY ARE (the caller's own arrays and PointCloud.append - user code - or an exporter
+   whose regenerated append does not copy): the stated hypothesis is that no vector ends up under two vertex ids.
+   Results built through prepare() or by an appending exporter that copies need no hypothesis. *)
 Definition op_ok (w : world) (o : op) : Prop :=
   match o with
-  | ONew false pat _ _ _ _ _ => forall m' cs, build_ext (wobjs w) (wmem w) pat = Some (m', cs) -> NoDup cs
+  | ONew how pat _ _ _ _ _ _ =>
+      match build_mode how with
+      | Alias => forall m' cs, build_ext (wobjs w) (wmem w) pat = Some (m', cs) -> NoDup cs
+      | Copy => True
+      end
   | _ => True
   end.
 
@@ -133,6 +137,7 @@ Proof.
       destruct (do_translate O (wmem w) (ocells so) (rd (mheap (wmem w)) pc)) as [m' cs'] eqn:E.
       exists so, m', cs'. split; [first [exact Em | reflexivity]|split; [reflexivity|]]. now apply do_translate_spec.
   - (* rotate *)
+    destruct (is_rotation O R); [|discriminate]. cbn [negb] in Hs.
     destruct (get_mesh w m) as [so|] eqn:Em; [|discriminate]. destruct (Hobj _ _ Em) as [Hnd Hal].
     destruct (default_orig O rotate_default (mheap (wmem w)) (ocells so) orig) as [og|]; [|discriminate].
     inversion Ht; subst; clear Ht. inversion Hs; subst; clear Hs.
@@ -186,7 +191,8 @@ Qed.
 (* ---- the shape of every step: a new object on fresh-or-shared cells, or one object's cells rewritten *)
 Definition step_shape (w w' : world) (o : op) : Prop :=
   (target o = None /\ exists m' no, w' = push w m' no /\ frame O (wmem w) m' /\ wf_obj m' no)
-  \/ (exists i so m' cs', target o = Some i /\ nth_error (wobjs w) i = Some so /\ w' = retarget w i so (m', cs')
+  \/ (exists i so so' m' cs', target o = Some i /\ nth_error (wobjs w) i = Some so
+        /\ w' = mkw m' (upd (wobjs w) i so') /\ ocells so' = cs'
         /\ (mnext (wmem w) <= mnext m')%positive /\ NoDup cs' /\ Forall (allocated m') cs'
         /\ (forall c, allocated (wmem w) c -> ~ In c (ocells so) -> rd (mheap m') c = rd (mheap (wmem w)) c)
         /\ (forall c, In c cs' -> In c (ocells so) \/ ~ allocated (wmem w) c)).
@@ -215,7 +221,8 @@ Lemma step_has_tmap (w w' : world) o :
 Proof.
   destruct o; auto; cbn [step tmap]; intros Hs.
   - destruct (get_mesh w m); [|discriminate]. destruct t; eauto. destruct (cell_of w _ _); [eauto|discriminate].
-  - destruct (get_mesh w m); [|discriminate]. destruct (default_orig _ _ _ _ _); [eauto|discriminate].
+  - destruct (is_rotation O R); [|discriminate]. cbn [negb] in Hs.
+    destruct (get_mesh w m); [|discriminate]. destruct (default_orig _ _ _ _ _); [eauto|discriminate].
   - destruct (get_mesh w m); [|discriminate]. unfold do_scale in Hs. destruct (default_orig _ _ _ _ _); [eauto|discriminate].
   - destruct (get_mesh w m); [|discriminate]. destruct (default_orig _ _ _ _ _); [eauto|discriminate].
   - destruct (get_mesh w m) as [so|]; [|discriminate]. unfold do_normalize in Hs. unfold coords.
@@ -235,28 +242,27 @@ Proof.
   destruct o; cbn [target] in *;
     try (destruct Htm as (i & f & Ht); pose proof (tmap_target _ _ _ _ Ht) as Hti; cbn [target] in Hti;
          destruct (step_tmap _ _ _ _ _ Hwf Ht Hs) as (so & m' & cs' & Em & -> & (S1 & S2 & S3 & S4 & S5 & S6 & S7));
-         right; exists i, so, m', cs'; repeat split; auto using get_mesh_nth; fail).
+         right; exists i, so, (with_cells so cs'), m', cs'; repeat split; auto using get_mesh_nth; fail).
   - (* ONew *)
     left. split; auto. cbn [step] in Hs. destruct (build_ext (wobjs w) (wmem w) pat) as [[m1 cs]|] eqn:E; [|discriminate].
     pose proof E as E0.
     apply build_ext_spec with (O := O) in E as [Hf Hal]; [|apply wf_objs_allocated; auto].
-    destruct prep.
-    + rewrite prepare_copies in Hs. destruct (take O Copy m1 cs) as [m2 cs2] eqn:Et. inversion Hs; subst.
-      apply take_copy_fresh in Et as (Hfb & Hf2 & _).
-      exists m2, (mkobj cs2 e f c cn k).
+    destruct (take O (build_mode how) m1 cs) as [m2 cs2] eqn:Et. inversion Hs; subst. cbn [op_ok] in Hok.
+    exists m2, (mkobj cs2 e f c cn at0 k). destruct (build_mode how).
+    + cbn [take] in Et. inversion Et; subst.
+      split; [reflexivity|split; [exact Hf|split; [exact (Hok _ _ E0)|exact Hal]]].
+    + apply take_copy_fresh in Et as (Hfb & Hf2 & _).
       split; [reflexivity|split; [eapply frame_trans; eauto|split; [apply Hfb|]]].
       simpl. now apply fresh_block_allocated with (m := m1).
-    + inversion Hs; subst. exists m1, (mkobj cs e f c cn k).
-      split; [reflexivity|split; [exact Hf|split; [exact (Hok _ _ E0)|exact Hal]]].
   - (* OFromArrays *)
     left. split; auto. cbn [step] in Hs. destruct (nth_error (wobjs w) a) as [ao|] eqn:Ea; [|discriminate].
     destruct (is_mesh ao); [discriminate|].
     destruct (take O (eff from_arrays_mode) (wmem w) (ocells ao)) as [m1 cs] eqn:E. inversion Hs; subst.
     destruct (wf_nth _ _ _ Hwf Ea) as [Hnd Hal].
-    apply take_spec in E as (A & B & C & _); auto. exists m1, (mkobj cs e f c cn k). split; [reflexivity|split; [exact C|split; [exact A|exact B]]].
+    apply take_spec in E as (A & B & C & _); auto. exists m1, (mkobj cs e f c cn [] k). split; [reflexivity|split; [exact C|split; [exact A|exact B]]].
   - (* ORing *)
     left. split; auto. cbn [step] in Hs. destruct (ring_cells O (wmem w) N nc open vs) as [[m1 cs]|] eqn:E; [|discriminate].
-    inversion Hs; subst. apply ring_cells_spec in E as (A & B & C & _). exists m1, (mkobj cs e f [] cn 2). split; [reflexivity|split; [exact C|split; [exact A|exact B]]].
+    inversion Hs; subst. apply ring_cells_spec in E as (A & B & C & _). exists m1, (mkobj cs e f [] cn [] 2). split; [reflexivity|split; [exact C|split; [exact A|exact B]]].
   - (* OCopy *)
     left. split; auto. cbn [step] in Hs. destruct (get_mesh w m) as [so|] eqn:Em; [|discriminate].
     destruct (take O (if attr then copy_mode_with_attributes else copy_mode_data_only) (wmem w) (ocells so)) as [m1 cs] eqn:E.
@@ -268,16 +274,16 @@ Proof.
     destruct (merge_cells O (wmem w) ins) as [m1 cs] eqn:E.
     destruct (merge_comb merge_offset0 ins) as [[e f] c]. inversion Hs; subst.
     apply merge_cells_spec in E as (A & B & _).
-    + exists m1, (mkobj cs e f c (merge_corn 0 0 0 ins) (kind_of_data e f c)). split; [reflexivity|split; [exact B|split; [apply A|]]].
+    + exists m1, (mkobj cs e f c (merge_corn 0 0 0 ins) [] (kind_of_data e f c)). split; [reflexivity|split; [exact B|split; [apply A|]]].
       simpl. now apply fresh_block_allocated with (m := wmem w).
     + intros o Ho. apply wf_objs_allocated; auto. eapply get_meshes_In; eauto.
   - (* OEdit *)
     right. cbn [step] in Hs. unfold cell_of in Hs. destruct (nth_error (wobjs w) o) as [ob|] eqn:Eo; [|discriminate].
     destruct (nth_error (ocells ob) s) as [c|] eqn:Ec; [|discriminate]. destruct (k <? 3)%nat; [|discriminate].
     inversion Hs; subst; clear Hs. destruct (wf_nth _ _ _ Hwf Eo) as [Hnd Hal].
-    exists o, ob, (mkmem (wr (mheap (wmem w)) c (setc (rd (mheap (wmem w)) c) k x)) (mnext (wmem w))), (ocells ob).
+    exists o, ob, ob, (mkmem (wr (mheap (wmem w)) c (setc (rd (mheap (wmem w)) c) k x)) (mnext (wmem w))), (ocells ob).
     repeat split; auto.
-    + unfold retarget. simpl. rewrite with_cells_same, upd_same; auto.
+    + simpl. rewrite upd_same; auto.
     + simpl. lia.
     + simpl. intros c' _ Hn. apply rd_wr_other. intros ->. apply Hn. eapply nth_error_In; eauto.
   - (* OSet *)
@@ -285,13 +291,28 @@ Proof.
     destruct (s <? length (ocells so))%nat eqn:Es; [|discriminate].
     destruct (alloc1 (wmem w) v) as [m1 c] eqn:E. inversion Hs; subst; clear Hs.
     apply (alloc1_spec O) in E as (Hc & Hn & Hv & Hf). destruct (wf_nth _ _ _ Hwf (get_mesh_nth _ _ _ Em)) as [Hnd Hal].
-    exists m, so, m1, (upd (ocells so) s c). repeat split; auto using get_mesh_nth.
+    exists m, so, (with_cells so (upd (ocells so) s c)), m1, (upd (ocells so) s c). repeat split; auto using get_mesh_nth.
     + apply Hf.
     + apply NoDup_upd_fresh; auto. intros Hin. rewrite Forall_forall in Hal. specialize (Hal _ Hin).
       unfold allocated in Hal. lia.
     + apply Forall_upd; [eapply Forall_allocated_mono; eauto|]. unfold allocated. lia.
     + intros c' Hc' _. now apply Hf.
     + intros c' Hc'. apply In_upd in Hc' as [->|Hc']; auto. right. unfold allocated. lia.
+  - (* OAttrSet *)
+    right. cbn [step] in Hs. destruct (get_mesh w m) as [so|] eqn:Em; [|discriminate]. inversion Hs; subst; clear Hs.
+    destruct (wf_nth _ _ _ Hwf (get_mesh_nth _ _ _ Em)) as [Hnd Hal].
+    exists m, so, (with_attr so (attr_set (oattr so) cont name vals)), (wmem w), (ocells so).
+    repeat split; auto using get_mesh_nth; lia.
+  - (* OAttrEdit *)
+    right. cbn [step] in Hs. destruct (get_mesh w m) as [so|] eqn:Em; [|discriminate]. inversion Hs; subst; clear Hs.
+    destruct (wf_nth _ _ _ Hwf (get_mesh_nth _ _ _ Em)) as [Hnd Hal].
+    exists m, so, (with_attr so (attr_edit (oattr so) cont name k x)), (wmem w), (ocells so).
+    repeat split; auto using get_mesh_nth; lia.
+  - (* OElemEdit *)
+    right. cbn [step] in Hs. destruct (get_mesh w m) as [so|] eqn:Em; [|discriminate]. inversion Hs; subst; clear Hs.
+    destruct (wf_nth _ _ _ Hwf (get_mesh_nth _ _ _ Em)) as [Hnd Hal].
+    exists m, so, (with_elem so which k el), (wmem w), (ocells so).
+    repeat split; auto using get_mesh_nth; try lia. destruct which as [|[|?]]; reflexivity.
 Qed.
 
 (* ---------------------------------------------------------------- the invariant *)
@@ -299,7 +320,10 @@ Lemma step_wf (w w' : world) o : wf w -> op_ok w o -> step O w o = Some w' -> wf
 Proof.
   intros Hwf Hok Hs. destruct (step_shape_holds _ _ _ Hwf Hok Hs) as [(_ & m' & no & -> & Hf & Hno)|H].
   - apply wf_push; auto. apply Hf.
-  - destruct H as (i & so & m' & cs' & _ & _ & -> & Hle & Hnd & Hal & _). now apply wf_retarget.
+  - destruct H as (i & so & so' & m' & cs' & _ & _ & -> & Hc & Hle & Hnd & Hal & _).
+    unfold Proofs_World.wf. simpl. apply Forall_upd.
+    + eapply Forall_impl; [|exact Hwf]. intros a. now apply wf_obj_mono.
+    + split; rewrite Hc; auto.
 Qed.
 
 Fixpoint ok_hist (w : world) (l : list op) : Prop :=
@@ -325,6 +349,8 @@ Definition obj_cells (w : world) (k : nat) : list cell :=
 
 Lemma nth_error_retarget_other (w : world) i so r j : i <> j -> nth_error (wobjs (retarget w i so r)) j = nth_error (wobjs w) j.
 Proof. intros H. unfold retarget. simpl. now apply nth_error_upd_other. Qed.
+Lemma obj_cells_upd_other (m : mem) objs i so' j : i <> j -> obj_cells (mkw m (upd objs i so')) j = obj_cells (mkw m objs) j.
+Proof. intros H. unfold obj_cells. simpl. now rewrite nth_error_upd_other. Qed.
 
 (* one step: cells outside the target object keep their value; an object's new cells are its old ones or fresh *)
 Lemma step_effect (w w' : world) o :
@@ -341,13 +367,13 @@ Proof.
     + intros c Hc _. now apply Hf.
     + intros k Hk c Hc. left. unfold obj_cells, push in *. simpl in *. now rewrite nth_error_app1 in Hc.
     + intros k _ Hk. unfold obj_cells, push. simpl. now rewrite nth_error_app1.
-  - destruct H as (i & so & m' & cs' & Ht & En & -> & Hle & Hnd & Hal & Hfr & Hsub). repeat split; auto.
-    + intros c Hc Hn. apply Hfr; auto. specialize (Hn _ Ht). unfold obj_cells in Hn. now rewrite En in Hn.
-    + intros k Hk c Hc. destruct (Nat.eq_dec i k) as [->|Hne].
-      * unfold obj_cells in *. rewrite En. unfold retarget in Hc. simpl in Hc.
-        rewrite nth_error_upd_same in Hc by auto. simpl in Hc. auto.
-      * left. unfold obj_cells in *. now rewrite nth_error_retarget_other in Hc.
-    + intros k Hne _. unfold obj_cells. rewrite nth_error_retarget_other; auto. congruence.
+  - destruct H as (i & so & so' & m' & cs' & Ht & En & -> & Hc & Hle & Hnd & Hal & Hfr & Hsub). repeat split; auto.
+    + intros c Hc0 Hn. apply Hfr; auto. specialize (Hn _ Ht). unfold obj_cells in Hn. now rewrite En in Hn.
+    + intros k Hk c Hc0. destruct (Nat.eq_dec i k) as [->|Hne].
+      * unfold obj_cells in *. rewrite En. simpl in Hc0.
+        rewrite nth_error_upd_same in Hc0 by auto. rewrite Hc in Hc0. auto.
+      * left. unfold obj_cells in *. simpl in Hc0. now rewrite nth_error_upd_other in Hc0.
+    + intros k Hne _. unfold obj_cells. simpl. rewrite nth_error_upd_other; auto. congruence.
 Qed.
 
 Definition targets_only (k : nat) (o : op) : Prop := target o = None \/ target o = Some k.
@@ -356,7 +382,7 @@ Lemma step_length (w w' : world) o : wf w -> op_ok w o -> step O w o = Some w' -
 Proof.
   intros Hwf Hok Hs. destruct (step_shape_holds _ _ _ Hwf Hok Hs) as [(_ & m' & no & -> & _)|H].
   - unfold push. simpl. rewrite app_length. lia.
-  - destruct H as (i & so & m' & cs' & _ & _ & -> & _). unfold retarget. simpl. rewrite upd_length. lia.
+  - destruct H as (i & so & so' & m' & cs' & _ & _ & -> & _). simpl. rewrite upd_length. lia.
 Qed.
 
 (* If the cells S are disjoint from object k's, no history that writes only through object k (and creates whatever
